@@ -2,16 +2,21 @@
 import time
 from lib.common import run_tasks, finish
 from props import _mp
+from props import _thresha as T
 
 
 def run(tier, seed):
     t0 = time.time()
     obs = run_tasks(_mp.sym(tier))
     obs = [o for o in obs if o.name.startswith(('dealing:', 'wire:', 'input:', '_randoms', 'input/mul'))]
+    # the dealing function itself: fresh polynomial per secret with t coefficients drawn from the whole field (engine A, as under C13) and the exhaustive
+    # distribution check of batches (two secrets dealt in one call must not share coefficients)
+    obs += run_tasks(T.a_tasks([('random_split_int', 'contracts.thresha_native:split_draws'), ('random_split_field', 'contracts.thresha_native:split_draws')], tier)
+                     + T.natives(tier, 'C13'))
     return finish('C14', tier, seed, obs, 'other', t0,
                   explanation='ghost dealer log in symbolic mp runs: every call of thresha.random_split made by _distribute and _reshare (hence by input, _randoms '
                   'without PRSS, mul) passes t == rt.threshold and m == len(rt.parties); every dealt share put on the ghost network is, as a polynomial normal form, '
                   'secret-part + a fresh dealer coefficient with unit factor (never a bare secret or bare share) for t >= 1. The random_split contract itself '
-                  '(t fresh uniform coefficients per secret, none reused) is C12/C13. "Degree exactly t" is read as "t coefficients drawn uniformly from the '
+                  '(t fresh uniform coefficients per secret, none reused: engine A, P) is included here as under C13. "Degree exactly t" is read as "t coefficients drawn uniformly from the '
                   'whole field" (the leading one may be 0 with probability 1/q). Bounded in (m,t).',
                   assumptions=_mp.MP_ASSUME, trusted_base=_mp.MP_TRUST)
